@@ -55,12 +55,12 @@ class SimulationScenario():
  
         if "constants" in dictionary:
             # Overwrite base constants (if any)
-            self.constants = dictionary["constants"]
+            self.constants = dict(dictionary["constants"]) # the scenario's own table (the description may be registered more than once)
         else:
             self.constants = {}
 
         if "points" in dictionary:
-            self.points = dictionary["points"]
+            self.points = dict(dictionary["points"])
             if model is not None:
                 # overlay the scenario's points on the model's own ones (the model keeps the points the scenario does not override)
                 self.model.points.update(self.points)
